@@ -500,6 +500,7 @@ fn c10_q_rw_writer_not_starved() {
   sched::set_stuck_is_bug(true);
   let w = l.write();
   assert!(r.is_none(), "C10: write() returned while a read guard exists");
+  kani::cover!(true, "writer acquired after the old reader left");
   std::mem::forget(w);
   assert!(sched::points() <= 40, "VERIF-BOUND: more scheduling points than the dispatch covers");
   });
@@ -729,4 +730,5 @@ fn c10_q_mutex_repoll_other_waker() {
   }
   f = None;
   assert!(m.try_lock().is_none(), "C10: two mutex guards coexist");
+  kani::cover!(true, "scenario ran to its end");
 }
